@@ -21,6 +21,7 @@ Import ListNotations.
 From FV.C11 Require Import Model Entry Check.
 From FV.C18 Require Import Model Check.
 From FV.C18.gen Require Import Tables.
+From FV.C11.gen Require Import Kernels.
 Open Scope string_scope. Open Scope Q_scope.
 Set Printing Width 100000.
 '''
@@ -204,7 +205,7 @@ def check_polyhedron(ctx, model_ok):
                 g_vol.append((2 * i + (1 if cen == 'true' else 0),
                               # centroid kernel: float32 face centroid (k = 3: thirds are rounded)
                               f'poly_vol_ok {"(1#1024)" if cen == "true" else "(1#67108864)"} '
-                              f'(1#1048576) {cen} coords_{i} {ev}'))
+                              f'(1#1048576) polyhedron_local_origin {cen} coords_{i} {ev}'))
         # ---- property oracle on the implementation's own numbers
         problems = []
         if r['poly_ids'] != r['ids'] or r['poly_data'] != r['data'] or r['poly_type'] != 'polyhedron':
